@@ -89,6 +89,9 @@ impl<A: DecoderArithmetic> Decoder<A> {
         for (x, &y) in self.input_llrs.iter_mut().zip(llrs.iter()) {
             *x = self.arithmetic.input_llr_quantize(y)
         }
+        // Before any iteration the output LLRs are the input LLRs (this is what
+        // a failed decode with zero iterations reports)
+        self.output_llrs.copy_from_slice(&self.input_llrs);
 
         // First variable messages use only input LLRs
         for (v, &llr) in self.input_llrs.iter().enumerate() {
